@@ -68,4 +68,5 @@ extern const VhOp vh_adaptive_ops[];
 extern const VhOp vh_mem_ops[];
 extern const VhOp vh_packed_ops[];
 extern const VhOp vh_dim_ops[];
+extern int vh_track; /* vh_alloc.c: allocation tracking on */
 extern int vh_align; /* destination alignment offset 0..7 used by scalar ops */
